@@ -109,8 +109,27 @@ func parseVersion2(reader *bufio.Reader) (header *Header, err error) {
 		state.ProxyErrInvalidHeader.Inc(1)
 		return nil, ErrUnsupportedProtocolVersionAndCommand
 	}
-	// If command is LOCAL, header ends here
+	// If command is LOCAL, the address family, the length and the following
+	// address block/TLVs are still present on the wire but must be ignored.
+	// (A bare 13-byte header with nothing following it is accepted as well.)
 	if header.Command.IsLocal() {
+		if _, err := reader.Peek(1); err != nil {
+			return header, nil
+		}
+		var famLen [3]byte
+		if _, err := io.ReadFull(reader, famLen[:]); err != nil {
+			state.ProxyErrReadHeader.Inc(1)
+			return nil, ErrCantReadLength
+		}
+		length := binary.BigEndian.Uint16(famLen[1:])
+		if _, err := reader.Peek(int(length)); err != nil {
+			state.ProxyErrReadHeader.Inc(1)
+			return nil, ErrInvalidLength
+		}
+		if length > 0 {
+			reader.Read(make([]byte, length))
+		}
+		state.ProxyNormalV2Header.Inc(1)
 		return header, nil
 	}
 
